@@ -25,7 +25,7 @@ m = {
     'setup_cmd': './setup.sh',
     'hooks': {
         'guard': 'rustradio_verif',
-        'enable': 'none needed: vx cuts source text from /repo by span, kx injects #[cfg(kani)] modules into a scratch copy; /repo carries no hook code',
+        'enable': 'none needed in /repo: vx cuts source text from /repo by span, kx injects #[cfg(kani)] modules into a scratch copy, and the derive users C19 needs live in /verif/hooks/syncx_blocks.rs, which is copied into a scratch copy of /repo as an integration test (tests/verif_syncx.rs) before rustc expands it; /repo carries no hook code',
         'baseline_off_cmd': 'cd /repo && cargo test --workspace --no-fail-fast --offline',
         'source_commits': [],
         'add_only': True,
